@@ -484,6 +484,9 @@ func main() {
 			key := r.Violation.Invariant + "|" + r.Violation.Sig
 			if v, ok := byInv[key]; ok {
 				v.n++
+				if !v.rec.Minimised && r.Minimised {
+					v.rec = r // prefer a record that carries a minimised tape
+				}
 			} else {
 				byInv[key] = &viol{rec: r, n: 1}
 				invOrder = append(invOrder, key)
